@@ -577,19 +577,37 @@ class Evaluator:
                 self.env[nm] = fold_sub(("dict", cur[1] + ((("dstar",), arg),)))
                 return live
         if isinstance(st, ast.Expr) and isinstance(st.value, ast.Call) and isinstance(st.value.func, ast.Attribute) \
-                and st.value.func.attr in ("append", "extend") and isinstance(st.value.func.value, ast.Name) \
-                and len(st.value.args) == 1 and not st.value.keywords:
-            # `xs = [a, b]` ... `xs.append(c)` on the same path: xs is the display [a, b, c]
+                and st.value.func.attr in ("append", "extend", "insert") and isinstance(st.value.func.value, ast.Name) \
+                and len(st.value.args) == (2 if st.value.func.attr == "insert" else 1) and not st.value.keywords:
+            # `xs = [a, b]` ... `xs.append(c)` on the same path (or in a branch of it: the join makes the value
+            # conditional): xs is the display [a, b, c]
             nm = st.value.func.value.id
             cur = self.env.get(nm)
-            if cur is not None and cur[0] == "list" and self.list_defs.get(nm) == (tuple(self.loop_stack), live):
-                arg = self.ev(st.value.args[0], live)
+            ld = self.list_defs.get(nm)
+
+            def leaves_are_lists(t):
+                return t[0] == "list" or (t[0] == "ite" and leaves_are_lists(t[2]) and leaves_are_lists(t[3]))
+
+            if cur is not None and leaves_are_lists(cur) and ld is not None and ld[0] == tuple(self.loop_stack) \
+                    and all(c in conjuncts(live) for c in conjuncts(ld[1])):
+                def upd(t, fn):
+                    return ITE(t[1], upd(t[2], fn), upd(t[3], fn)) if t[0] == "ite" else ("list", fn(t[1]))
+
                 if st.value.func.attr == "append":
-                    self.env[nm] = ("list", cur[1] + (arg,))
+                    arg = self.ev(st.value.args[0], live)
+                    self.env[nm] = upd(cur, lambda xs: xs + (arg,))
                     return live
-                if arg[0] in ("list", "tuple"):
-                    self.env[nm] = ("list", cur[1] + arg[1])
-                    return live
+                if st.value.func.attr == "insert":
+                    pos = self.ev(st.value.args[0], live)
+                    if pos == ("const", 0):
+                        arg = self.ev(st.value.args[1], live)
+                        self.env[nm] = upd(cur, lambda xs: (arg,) + xs)
+                        return live
+                else:
+                    arg = self.ev(st.value.args[0], live)
+                    if arg[0] in ("list", "tuple"):
+                        self.env[nm] = upd(cur, lambda xs: xs + arg[1])
+                        return live
         if isinstance(st, ast.Expr):
             if isinstance(st.value, ast.Constant):
                 return live
@@ -1553,6 +1571,26 @@ class Evaluator:
                 return ("call", ("ext", fn.qual[4:]), tuple(("const", a.value) for a in node.args), ())
         return f
 
+    def _dict_view(self, t):
+        """(P, fn) when t enumerates the **kwargs dict P in item order: fn(e) is t's element for the item e = (key, value)"""
+        def is_kw(x):
+            return x[0] == "param" and x[1].startswith("**")
+        if is_kw(t):
+            return t, (lambda e: ("sub", e, ("const", 0)))
+        if t[0] == "call" and t[1][0] == "attr" and is_kw(t[1][1]) and not t[2] and not t[3]:
+            if t[1][2] == "keys":
+                return t[1][1], (lambda e: ("sub", e, ("const", 0)))
+            if t[1][2] == "values":
+                return t[1][1], (lambda e: ("sub", e, ("const", 1)))
+            if t[1][2] == "items":
+                return t[1][1], (lambda e: e)
+        if t[0] == "comp" and t[1] == "gen" and len(t[3]) == 1 and not t[3][0][2]:
+            inner = self._dict_view(t[3][0][1])
+            if inner is not None:
+                lid, elt = t[3][0][0], t[2]
+                return inner[0], (lambda e, lid=lid, elt=elt, g=inner[1]: fold_sub(subst(elt, {("elem", lid): g(e)})))
+        return None
+
     def _zip_elem(self, el, it):
         """the element of a loop over zip(a, b, ...) as the tuple of its components (so that `m[pair]` is `m[i, j]`)"""
         if it[0] == "call" and it[1] == ("builtin", "zip") and len(it[2]) >= 2 and not it[3] and not any(a[0] == "star" for a in it[2]):
@@ -1635,6 +1673,37 @@ class Evaluator:
             ev_ = self.emit("call", live, t_, n)
             ev_.kw_order = []  # type: ignore[attr-defined]
             return t_
+        # zip / map over several views of one **kwargs dict (d, d.keys(), d.values(), d.items(), generators over them) walk the
+        # dict's items in lock step: one generator over d.items()
+        if f in (("builtin", "zip"), ("builtin", "map")) and f[1] not in self.env and plain:
+            its = args if f[1] == "zip" else args[1:]
+            views = [self._dict_view(a) for a in its]
+            if len(its) >= 2 and all(v is not None for v in views) and len({v[0] for v in views}) == 1:
+                P = views[0][0]
+                items = ("call", ("attr", P, "items"), (), ())
+                lid = self.fresh("L")
+                el = ("elem", lid)
+                self.loops[lid] = LoopInfo(lid, "comp", items, n, self.loop_stack[-1] if self.loop_stack else None, "_")
+                comps = [v[1](el) for v in views]
+                if f[1] == "zip":
+                    return ("comp", "gen", ("tuple", tuple(comps)), ((lid, items, ()),))
+                self.loop_stack.append(lid)
+                try:
+                    t_ = ("call", args[0], tuple(comps), ())
+                    if args[0][0] == "call" and args[0][1] == ("ext", "functools.partial") and args[0][2]:
+                        nm_ = sorted([kv for kv in args[0][3] if kv[0] != "**"], key=lambda kv: kv[0])
+                        t_ = ("call", args[0][2][0], tuple(args[0][2][1:]) + tuple(comps), tuple(nm_ + [kv for kv in args[0][3] if kv[0] == "**"]))
+                    v_ = self._apply_fn(args[0], comps) if args[0][0] in ("lambda",) else t_
+                    if v_ is t_:
+                        inl_ = self._try_inline(t_[1], t_, AND(live, ("inloop", lid)), n)
+                        if inl_ is not None:
+                            v_ = inl_
+                        else:
+                            ev_ = self.emit("call", AND(live, ("inloop", lid)), t_, n)
+                            ev_.kw_order = []  # type: ignore[attr-defined]
+                finally:
+                    self.loop_stack.pop()
+                return ("comp", "gen", v_, ((lid, items, ()),))
         # map(f, xs) / filter(p, xs) are generator expressions
         if f == ("builtin", "map") and "map" not in self.env and plain and len(args) == 2:
             lid = self.fresh("L")
@@ -1684,12 +1753,26 @@ class Evaluator:
             if v is not None:
                 return v
         # calling a conditional choice of functions: (f if c else g)(x) is f(x) if c else g(x)
-        if f[0] == "ite" and all(x[0] in ("global", "const", "lambda", "ext") for x in self._ite_leaves(f)):
+        if f[0] == "ite" and all(x[0] in ("global", "const", "lambda", "ext") or (x[0] == "call" and x[1] == ("ext", "functools.partial"))
+                                 for x in self._ite_leaves(f)):
             def dist(fn, lv):
                 if fn[0] == "ite":
                     return ITE(fn[1], dist(fn[2], AND(lv, fn[1])), dist(fn[3], AND(lv, NOT(fn[1]))))
                 if fn == NONE or fn[0] == "const":
                     return ("error", "call of a non-function")
+                if fn[0] == "call" and fn[1] == ("ext", "functools.partial") and fn[2]:
+                    kws_ = dict(kv for kv in fn[3] if kv[0] != "**")
+                    kws_.update(dict(named))
+                    sp_ = [kv for kv in fn[3] if kv[0] == "**"] + list(spreads)
+                    t2 = ("call", fn[2][0], tuple(fn[2][1:]) + tuple(args), tuple(sorted(kws_.items())) + tuple(sp_))
+                    if lv == FALSE:
+                        return t2
+                    inl2 = self._try_inline(t2[1], t2, lv, n)
+                    if inl2 is not None:
+                        return inl2
+                    ev3 = self.emit("call", lv, t2, n)
+                    ev3.kw_order = sorted(kws_)  # type: ignore[attr-defined]
+                    return t2
                 if fn[0] == "lambda" and not named and not spreads:
                     v_ = self._apply_fn(fn, list(args))
                     if v_[0] == "call" and v_[1] != fn and lv != FALSE:
